@@ -437,6 +437,19 @@ func gen(work string, seed uint64, nrand, nmixed int) genOut {
 	for _, n := range []string{"bigfile/big", "bigfile/use", "bigfile/top", "bigfile/solo"} {
 		o.Packages = append(o.Packages, pkgRec{Name: n, Dir: filepath.Join(mod, n), Snippets: []string{n}, Targets: []string{"pkg:oversized-file"}, BinaryOnly: true})
 	}
+	// a package made of many small files and an importer (linted a second time under a low descriptor limit)
+	for i := 0; i < 400; i++ {
+		doc := ""
+		if i == 0 {
+			doc = "// Package many has many files.\n"
+		}
+		hx.WriteFile(filepath.Join(mod, "manyfiles", "many", fmt.Sprintf("f%03d.go", i)),
+			fmt.Sprintf("%spackage many\n\n// F%d returns its argument unless it is nil.\nfunc F%d(p *int) *int {\n\tif p == nil {\n\t\treturn new(int)\n\t}\n\treturn p\n}\n", doc, i, i))
+	}
+	hx.WriteFile(filepath.Join(mod, "manyfiles", "use", "use.go"), "// Package use imports the package with many files.\npackage use\n\nimport \"example.com/c03gen/manyfiles/many\"\n\n// G calls many.\nfunc G() *int { return many.F399(many.F0(nil)) }\n")
+	for _, n := range []string{"manyfiles/many", "manyfiles/use"} {
+		o.Packages = append(o.Packages, pkgRec{Name: n, Dir: filepath.Join(mod, n), Snippets: []string{n}, Targets: []string{"pkg:many-files"}, BinaryOnly: true})
+	}
 	for _, n := range []string{"only_tests", "ext_tests"} {
 		o.Packages = append(o.Packages, pkgRec{Name: n, Dir: filepath.Join(mod, n), Snippets: []string{n}, Targets: []string{"pkg:" + n}, BinaryOnly: true})
 	}
